@@ -42,8 +42,8 @@ MANIFEST = {
              "after every input the code runs to quiescence, the observables are read, and TLC evaluates the operators of "
              "BroadcasterProps.tla on the observed traces (rebroadcast content and order, trigger starts a rebroadcast, "
              "hang detection with goroutine dump). SendTx.tla: the reply bookkeeping and verdict of sendTransaction for "
-             "every order of getdata / reject(class) / unrelated reject / silence of <= 4 peers, the reject timeout and "
-             "several thresholds; replayed on the real sendTransaction + queryAllPeers with fake ServerPeers.",
+             "every order of getdata / reject(class) / repeated getdata or reject / unrelated reject / silence of "
+             "<= 4 peers, the reject timeout and several thresholds; replayed on the real sendTransaction + queryAllPeers with fake ServerPeers.",
         note="Bounded: <=3 transactions, <=5 calls/events per history, <=4 peers. Observations are taken at quiescence "
              "only (inputs racing with a step in flight are not replayed). While the handler is inside a callback at most "
              "one other party waits for it. The statement's 'replying peer' / 'share' are read as generously as the words "
@@ -64,12 +64,14 @@ CODE_VERSION = json.load(open(os.path.join(SPEC, "code_version.json")))
 CONFIGS = {
     "quick": dict(
         B=dict(NTx=2, MaxOps=5, MaxM=2, Outs='{"ok","mempool","invalid"}', ROuts='{"ok","confirmed"}'),
-        S=dict(NP=3, Thrs="{50,60}", Codes="{1,2,4}", MaxDelay=1, MaxX=1),
+        S=dict(NP=3, Thrs="{50,60}", Codes="{1,2}", MaxDelay=1, MaxX=0, MaxDup=1),
         BF=dict(NTx=2, MaxOps=5, MaxM=2, Outs='{"ok","mempool","invalid"}', ROuts='{"ok","confirmed"}'),
         walks=0, depth=0, keep=10, tries=24),
     "thorough": dict(
         B=dict(NTx=3, MaxOps=5, MaxM=1, Outs='{"ok","mempool","invalid"}', ROuts='{"ok","confirmed"}'),
-        S=dict(NP=4, Thrs="{50,60,100}", Codes="{1,2,3,4,5}", MaxDelay=1, MaxX=0),
+        S=dict(NP=4, Thrs="{50,60,100}", Codes="{1,2,3,4,5}", MaxDelay=1, MaxX=0, MaxDup=0),
+        # repeated messages (second getdata / second reject, also of another class) and unrelated rejects
+        S2=dict(NP=3, Thrs="{50,60}", Codes="{1,2,4}", MaxDelay=1, MaxX=1, MaxDup=2),
         BF=dict(NTx=3, MaxOps=5, MaxM=2, Outs='{"ok","mempool","invalid"}', ROuts='{"ok","confirmed","invalid"}'),
         walks=4000, depth=14, keep=20, tries=60,
         # a second, smaller Broadcaster graph with every outcome class
@@ -280,6 +282,9 @@ def run(prop_id, tier, seed, replay=None):
                     "s": ("SendTx", dict(cfg["S"], FixRejectFromReplier=CODE_VERSION["FixRejectFromReplier"]), sinv)}
             if "B2" in cfg:
                 runs["b2"] = ("Broadcaster", dict(cfg["B2"], **bconst), binv)
+            if "S2" in cfg:
+                runs["s2"] = ("SendTx", dict(cfg["S2"], FixRejectFromReplier=CODE_VERSION["FixRejectFromReplier"]),
+                              sinv)
             with concurrent.futures.ThreadPoolExecutor(max_workers=6) as ex:
                 fb = {k: ex.submit(builders[k], sc) for k in ("b", "s")}
                 fm = {k: ex.submit(model, v[0], v[1], os.path.join(sc, "tlc-" + k), v[2]) for k, v in runs.items()}
@@ -295,7 +300,7 @@ def run(prop_id, tier, seed, replay=None):
                 mviol.update(names)
                 fk = k[0]
                 observed[k], stats[k] = drive(bins[fk], fams[fk][2], sc, k, seed, graph=gf,
-                                              walks=cfg["walks"] if k != "b2" else 0, depth=cfg["depth"],
+                                              walks=cfg["walks"] if k in ("b", "s") else 0, depth=cfg["depth"],
                                               keep=cfg["keep"], tries=cfg["tries"])
                 os.remove(gf)
 
@@ -335,7 +340,7 @@ def run(prop_id, tier, seed, replay=None):
         extra = {"states": max(1, sum(t.distinct for k, t in tlcs.items() if k != "b-small-steps")),
                  "traces_validated_against_impl": n_paths, "replayed_paths": n_paths, "replayed_steps": n_steps,
                  "traces_judged_again_by_tlc_on_observed_values": len(all_obs),
-                 "config": {k: v for k, v in cfg.items() if k in ("B", "S", "B2", "BF")}, "code_version": CODE_VERSION,
+                 "config": {k: v for k, v in cfg.items() if k in ("B", "S", "B2", "S2", "BF")}, "code_version": CODE_VERSION,
                  "replay_stats": stats,
                  "edges_not_hit_because_the_code_chose_otherwise": sum(s.get("not_hit_scheduling", 0) for s in stats.values()),
                  "edges_only_reachable_through_model_violation": sum(
